@@ -112,6 +112,14 @@ def gen_continuum(ch, *, min_annot=2, max_annot=4, max_units=7, labelset="alpha"
             for j in range(k):
                 s = (i + j) * step
                 units[n].append([r3(s), r3(s + length), labs[0] if same_label else labs[i + j]])
+    elif fam == "dense":
+        # heavily overlapping units of similar length: almost every combination stays under the pruning
+        # bound, so the candidate set is (nearly) the full product - crosses the 10000-candidate buffer growth
+        base = ch.uniform(4.0, 8.0)
+        for n in names:
+            for _ in range(ch.randint(max(1, max_units - 2), max_units)):
+                s = ch.uniform(0.0, 3.0)
+                units[n].append([r3(s), r3(s + base + ch.uniform(-1.0, 1.0)), lab()])
     elif fam == "sparse":
         for n in names:
             for _ in range(ch.randint(0, 2)):
